@@ -429,6 +429,15 @@ pub fn gen_schedule(rng: &mut Rng, n0: u64, p: &IrqProg) -> Schedule {
             s.entry(b).or_default().push(*rng.pick(&vec_pool));
         }
     }
+    if rng.chance(1, 8) {
+        // queue depths around powers of two (counter widths): raised while a handler runs
+        let b = rng.below(span);
+        s.entry(b).or_default().push(*rng.pick(&vec_pool));
+        let n = *rng.pick(&[127u64, 128, 129, 255, 256, 257, 300, 511, 512, 513]);
+        for _ in 0..n {
+            s.entry(b + 2).or_default().push(*rng.pick(&vec_pool));
+        }
+    }
     if rng.chance(1, 3) {
         // requests just before the quiescent tail ends
         s.entry(n0.saturating_sub(400)).or_default().push(*rng.pick(&vec_pool));
